@@ -72,8 +72,33 @@ class Struct:
         return "%s%r" % (self.ty, self.fields)
 
 class Ref:
-    def __init__(self, env, place):
-        self.env, self.place = env, place
+    """a reference: the frame that owns the local and the place inside it (the store is passed along
+    with the path, so that a fork copies every frame at once)"""
+    def __init__(self, fid, place):
+        self.fid, self.place = fid, place
+
+class ConstRef:
+    """a reference returned by a (promoted) constant: the referent itself"""
+    def __init__(self, value):
+        self.value = value
+
+class Env:
+    """view of one frame (`fid`) of the path's store {(fid, local): value}"""
+    __slots__ = ("store", "fid")
+    def __init__(self, store, fid):
+        self.store, self.fid = store, fid
+    def __getitem__(self, k):
+        return self.store[(self.fid, k)]
+    def __setitem__(self, k, v):
+        self.store[(self.fid, k)] = v
+    def __contains__(self, k):
+        return (self.fid, k) in self.store
+    def get(self, k, d=None):
+        return self.store.get((self.fid, k), d)
+    def fork(self):
+        return Env(dict(self.store), self.fid)
+    def frame(self, fid):
+        return Env(self.store, fid)
 
 class F64:
     """float provenance: ('bits', int value) | ('neg', F64)"""
@@ -91,6 +116,10 @@ class Opq:
 class Static:
     def __init__(self, name):
         self.name = name
+
+class ArrayV:
+    def __init__(self, items):
+        self.items = list(items)
 
 class ByteSlice:
     """a `&[u8]` argument: a python list of byte values (ints or T in 0..=255)"""
@@ -581,6 +610,7 @@ def balanced(s):
 
 VARIANT_INDEX = {
     ("Option", "None"): 0, ("Option", "Some"): 1, ("Result", "Ok"): 0, ("Result", "Err"): 1,
+    ("ControlFlow", "Continue"): 0, ("ControlFlow", "Break"): 1,
 }
 
 # ----------------------------------------------------------------------------- interpreter
@@ -602,6 +632,9 @@ class Interp:
         self.impl_consts = {}      # "<F as Trait>::NAME" -> value, supplied by the caller
         self.intrinsics_used = set()
         self.const_cache = {}
+        self.call_log = []
+        self.frames = 0
+        self.max_blocks = 20000
         self.tolerate_unsupported = False
         self.unsupported_paths = []
 
@@ -639,7 +672,9 @@ class Interp:
             return Static(m.group(1))
         if s.startswith('"'):
             return Opq("str")
-        if re.match(r"^-?[\d.]+(E[+-]?\d+)?f(32|64)$", s) or s in ("f64::INFINITY", "f64::NAN"):
+        if re.match(r"^-?[\d.]+(E[+-]?\d+)?f64$", s):
+            return F64("lit", s[:-3])
+        if re.match(r"^-?[\d.]+(E[+-]?\d+)?f32$", s) or s in ("f64::INFINITY", "f64::NAN"):
             return Opq("float-const")
         m = re.match(r"^<\w+ as (?:[\w:]+::)?RawFloat>::(\w+)$", s)
         if m and m.group(1) in self.impl_consts:
@@ -666,12 +701,15 @@ class Interp:
             if key in self.const_cache:
                 return self.const_cache[key]
             saved = self.paths
-            outs = list(self.run_fn(val, [], Ctx()))
+            outs = list(self._run_fn(val, [], Ctx(), {}))
             self.paths = saved
             if len(outs) != 1:
                 raise Unsupported("constant body with several paths: " + key)
-            self.const_cache[key] = outs[0][1]
-            return outs[0][1]
+            rv = outs[0][1]
+            if isinstance(rv, Ref):
+                rv = ConstRef(self.read_place(Env(outs[0][2], rv.fid), rv.place))
+            self.const_cache[key] = rv
+            return rv
         raise Unsupported("constant: " + s)
 
     # -- places
@@ -689,8 +727,10 @@ class Interp:
             return Opq(v.label + "." + str(p[-1]))
         if p[0] == "deref":
             if isinstance(v, Ref):
-                return self.read_place(v.env, v.place)
-            if isinstance(v, Static):
+                return self.read_place(env.frame(v.fid), v.place)
+            if isinstance(v, ConstRef):
+                return v.value
+            if isinstance(v, (Static, ByteSlice)):
                 return v
             raise Unsupported("deref of %r" % (v,))
         if p[0] == "field":
@@ -709,6 +749,13 @@ class Interp:
             raise Unsupported("downcast of %r" % (v,))
         if p[0] == "index":
             idx = env[p[1]]
+            if isinstance(v, (ByteSlice, ArrayV)):
+                if not isinstance(idx, int):
+                    raise Unsupported("symbolic index into a slice")
+                seq = v.data if isinstance(v, ByteSlice) else v.items
+                if not 0 <= idx < len(seq):
+                    raise Unsupported("index %d outside a slice of %d (the bounds assertion precedes)" % (idx, len(seq)))
+                return seq[idx]
             if isinstance(v, Static):
                 if not isinstance(idx, int):
                     raise Unsupported("symbolic index into a static table")
@@ -725,6 +772,14 @@ class Interp:
         if not projs:
             env[local] = val
             return
+        if projs[0][0] == "deref":
+            r = env[local]
+            if isinstance(r, Ref):
+                self.write_place(env.frame(r.fid), (r.place[0], r.place[1] + projs[1:]), val)
+                return
+            if isinstance(r, Opq):
+                return
+            raise Unsupported("write through %r" % (r,))
         if len(projs) == 1 and projs[0][0] == "field":
             cur = env.get(local)
             k = projs[0][1]
@@ -783,6 +838,16 @@ class Interp:
             if isinstance(v, Opq):
                 return Opq("neg(" + v.label + ")")
             return wrap(ctx, sub(0, v), dst_ty)
+        if m and m.group(1) in ("PtrMetadata", "Len"):
+            inner = m.group(2)
+            v = self.operand(inner, env) if inner.startswith(("copy ", "move ")) else self.read_place(env, parse_place(inner))
+            if isinstance(v, Ref):
+                v = self.read_place(env.frame(v.fid), v.place)
+            if isinstance(v, ByteSlice):
+                return len(v.data)
+            if isinstance(v, ArrayV):
+                return len(v.items)
+            raise Unsupported("length of %r" % (v,))
         if m and m.group(1) == "discriminant":
             v = self.read_place(env, parse_place(m.group(2)))
             if isinstance(v, Adt):
@@ -805,14 +870,18 @@ class Interp:
                 if isinstance(v, (bool, BT)):
                     v = bool_to_int(v)
                 return wrap(ctx, v, ty)
+            if kind == "IntToFloat" and ty == "f64" and not isinstance(v, (bool, BT)):
+                return F64("int", v)
             return Opq("cast-" + kind)
         if s.startswith("&"):
             body = s[1:]
             body = re.sub(r"^(mut |raw const |raw mut )", "", body)
-            return Ref(env, parse_place(body))
+            return Ref(env.fid, parse_place(body))
         if s.startswith(("copy ", "move ", "const ")):
             return self.operand(s, env)
         # aggregates
+        if s.startswith("[") and s.endswith("]") and "; " not in s:
+            return ArrayV([self.operand(x, env) for x in split_top(s[1:-1])])
         if s.startswith("(") and s.endswith(")"):
             return Tup([self.operand(x, env) for x in split_top(s[1:-1])])
         m = re.match(r"^([\w:<>, ]+?)::(\w+)\((.*)\)$", s)
@@ -841,6 +910,14 @@ class Interp:
             m = re.search(r": ([iu](?:8|16|32|64|128|size))\)$", pl)
             if m:
                 return m.group(1)
+            m = re.match(r"^\(\*(_\d+)\)(\[_\d+\])?$", pl)
+            if m and m.group(1) in fn.locals:
+                t = re.sub(r"^(&'?\w* ?mut |&mut |&|\*const |\*mut )", "", fn.locals[m.group(1)]).strip()
+                if m.group(2):
+                    mm = re.match(r"^\[(\w+)(; \d+)?\]$", t)
+                    t = mm.group(1) if mm else t
+                if t in INT_TY:
+                    return t
         if s.startswith("const "):
             m = re.search(r"_([iu](?:8|16|32|64|128|size))$", s)
             if m:
@@ -897,7 +974,7 @@ class Interp:
 
     # -- calls
     def call(self, callee, args, ctx, env, fn, dst_ty):
-        """yields (ctx, value)"""
+        """yields (ctx, value, store)"""
         name = callee.strip()
         base = re.sub(r"::<.*?>", "", name)
         last = base.split("::")[-1]
@@ -905,67 +982,121 @@ class Interp:
             w = int(re.search(r"impl u(\d+)", name).group(1))
             x = args[0]
             if isinstance(x, Opq):
-                yield ctx, Opq("lz"); return
+                yield ctx, Opq("lz"), env.store; return
             n, lz = normalise(ctx, x, w)
-            yield ctx, lz; return
+            yield ctx, lz, env.store; return
         if last in ("wrapping_add", "wrapping_sub", "wrapping_mul") and "impl " in name:
             ty = re.search(r"impl ([iu]\w+)", name).group(1)
             if any(isinstance(a, Opq) for a in args):
-                yield ctx, Opq(last); return
+                yield ctx, Opq(last), env.store; return
             f = {"wrapping_add": add, "wrapping_sub": sub, "wrapping_mul": mul}[last]
-            yield ctx, wrap(ctx, f(args[0], args[1]), ty); return
+            yield ctx, wrap(ctx, f(args[0], args[1]), ty), env.store; return
         if last == "new" and "RangeInclusive" in name:
-            yield ctx, Adt("RangeInclusive", "new", args); return
+            yield ctx, Adt("RangeInclusive", "new", args), env.store; return
         if last == "contains" and "RangeInclusive" in name:
             r, x = args
+            if isinstance(r, ConstRef):
+                r = r.value
             if isinstance(r, Ref):
-                r = self.read_place(r.env, r.place)
+                r = self.read_place(env.frame(r.fid), r.place)
             if isinstance(x, Ref):
-                x = self.read_place(x.env, x.place)
+                x = self.read_place(env.frame(x.fid), x.place)
             if isinstance(r, Adt) and not isinstance(x, (Opq, F64)) and not any(isinstance(v, Opq) for v in r.fields):
-                yield ctx, band(cmp_("Le", r.fields[0], x), cmp_("Le", x, r.fields[1])); return
-            yield ctx, Opq("contains"); return
+                yield ctx, band(cmp_("Le", r.fields[0], x), cmp_("Le", x, r.fields[1])), env.store; return
+            yield ctx, Opq("contains"), env.store; return
         if last == "is_infinite" and "f64" in name:
             v = args[0]
             while isinstance(v, F64) and v.kind == "neg":
                 v = v.arg
             if isinstance(v, F64) and v.kind == "bits" and not isinstance(v.arg, Opq):
                 ctx.cache[("isinf_decided",)] = True
-                yield ctx, cmp_("Eq", v.arg, 0x7FF0000000000000); return
+                yield ctx, cmp_("Eq", v.arg, 0x7FF0000000000000), env.store; return
             ctx.cache[("isinf_decided",)] = False
-            yield ctx, Opq("is_infinite"); return
+            yield ctx, Opq("is_infinite"), env.store; return
         if last == "from_u64_bits":
             if isinstance(args[0], Opq):
-                yield ctx, Opq("f64"); return
-            yield ctx, F64("bits", args[0]); return
+                yield ctx, Opq("f64"), env.store; return
+            yield ctx, F64("bits", args[0]), env.store; return
+        def deref(v):
+            if isinstance(v, ConstRef):
+                return v.value
+            if isinstance(v, Ref):
+                return self.read_place(env.frame(v.fid), v.place)
+            return v
+        if last == "is_ascii_digit" and "impl u8" in name:
+            x = deref(args[0])
+            if isinstance(x, Opq):
+                yield ctx, Opq(last), env.store; return
+            yield ctx, band(cmp_("Ge", x, 48), cmp_("Le", x, 57)), env.store; return
+        if last == "get_unchecked" and "impl [u8]" in name:
+            sl, i = deref(args[0]), args[1]
+            if isinstance(sl, ByteSlice) and isinstance(i, int) and 0 <= i < len(sl.data):
+                yield ctx, ConstRef(sl.data[i]), env.store; return
+            raise Unsupported("get_unchecked with a symbolic or out-of-range index")
+        if last == "index" and "RangeFrom" in name and "[u8]" in name:
+            sl, r = deref(args[0]), args[1]
+            start = list(r.fields.values())[0] if isinstance(r, Struct) else None
+            if isinstance(sl, ByteSlice) and isinstance(start, int) and 0 <= start <= len(sl.data):
+                out = ByteSlice(sl.data[start:])
+                out.origin = (getattr(sl, "origin", (id(sl), 0))[0], getattr(sl, "origin", (id(sl), 0))[1] + start)
+                yield ctx, out, env.store; return
+            raise Unsupported("slice[start..] with a symbolic start")
+        if last == "sub" and "<&u8 as Sub<u8>>" in name:
+            x, y = deref(args[0]), args[1]
+            ok = cmp_("Ge", x, y)
+            if ok is not True:
+                self.obligations.append(Obligation(fn.name, "?", "attempt to subtract with overflow", ctx.fork(), ok))
+                if ok is not False:
+                    ctx.assume(ok)
+            yield ctx, sub(x, y), env.store; return
+        if last in ("overflowing_add", "overflowing_mul", "overflowing_sub") and "impl " in name:
+            ty = re.search(r"impl ([iu]\w+)", name).group(1)
+            exact = {"overflowing_add": add, "overflowing_mul": mul, "overflowing_sub": sub}[last](args[0], args[1])
+            yield ctx, Tup([wrap(ctx, exact, ty), bnot(in_range(exact, ty))]), env.store; return
+        if last == "branch" and " as Try>" in name:
+            v = args[0]
+            if isinstance(v, Adt) and v.ty == "Result":
+                if v.variant == "Ok":
+                    yield ctx, Adt("ControlFlow", "Continue", v.fields), env.store; return
+                yield ctx, Adt("ControlFlow", "Break", [v]), env.store; return
+            raise Unsupported("Try::branch on %r" % (v,))
+        if last == "from_residual":
+            yield ctx, args[0], env.store; return
         m_g = re.match(r"^(.*?)::<(-?\d+)>$", name)
         plain, generic = (m_g.group(1), int(m_g.group(2))) if m_g else (name, None)
         iname = plain.split("::")[-1]
         if iname in SIMD and "arch::x86_64" in plain:
             self.intrinsics_used.add(iname)
-            yield ctx, SIMD[iname](ctx, args, generic); return
+            yield ctx, SIMD[iname](ctx, args, generic), env.store; return
         if last == "as_ptr" and "impl [u8]" in name and isinstance(args[0], ByteSlice):
-            yield ctx, Ptr(args[0]); return
+            yield ctx, Ptr(args[0]), env.store; return
         if last == "trailing_zeros" and "impl " in name:
             x = args[0]
             if isinstance(x, int):
-                yield ctx, (tz_of(x) if x != 0 else int(re.search(r"impl [iu](\d+)", name).group(1))); return
+                yield ctx, (tz_of(x) if x != 0 else int(re.search(r"impl [iu](\d+)", name).group(1))), env.store; return
             if isinstance(x, T) and x.tzx:
-                yield ctx, x.tz; return
+                yield ctx, x.tz, env.store; return
             raise Unsupported("trailing_zeros of a value whose lowest set bit is not known")
         f = self.find_fn(name)
         if f is not None and f.name.split("::")[-1].split("<")[0] in self.interpret:
             self.interpreted_calls.add(f.name)
             if getattr(ctx, "mark", None) is None:
                 ctx.mark = (len(ctx.cons), f.name)     # constraints from here on belong to the callee
-            yield from self.run_fn(f, args, ctx)
+            yield from self._run_fn(f, args, ctx, env.store)
             return
         self.opaque_calls.add(base)
-        yield ctx, Opq(last)
+        self.call_log.append((last, args, ctx))
+        yield ctx, Opq(last + "#%d" % len(self.call_log)), env.store
 
     # -- execution
-    def run_fn(self, f, args, ctx):
-        env = {}
+    def run_fn(self, f, args, ctx, store=None):
+        """yields (ctx, return value) per path"""
+        for c, rv, _st in self._run_fn(f, args, ctx, store if store is not None else {}):
+            yield c, rv
+
+    def _run_fn(self, f, args, ctx, store):
+        self.frames += 1
+        env = Env(store, self.frames)
         for a, v in zip(f.args, args):
             env[a] = v
         yield from self.run_block(f, "bb0", env, ctx, 0)
@@ -981,110 +1112,113 @@ class Interp:
             self.unsupported_paths.append("%s:%s %s" % (f.name.split("::")[-1], bb, ex))
 
     def _run_block(self, f, bb, env, ctx, depth):
-        if depth > 400:
-            raise Unsupported("path longer than 400 blocks (a loop?) in " + f.name)
-        stmts = f.blocks[bb]
-        for st in stmts[:-1]:
-            self.statement(f, st, env, ctx)
-        term = stmts[-1]
-        # --- terminators
-        if term == "return;":
-            self.paths += 1
-            if self.paths > self.max_paths:
-                raise PathLimit("more than %d paths" % self.max_paths)
-            yield ctx, env.get("_0")
-            return
-        if term == "unreachable;":
-            return
-        m = re.match(r"^goto -> (bb\d+);$", term)
-        if m:
-            yield from self.run_block(f, m.group(1), env, ctx, depth + 1)
-            return
-        m = re.match(r"^switchInt\((.*)\) -> \[(.*)\];$", term)
-        if m:
-            v = self.operand(m.group(1), env)
-            targets = []
-            other = None
-            for t in split_top(m.group(2)):
-                k, b = t.split(": ")
-                if k == "otherwise":
-                    other = b
-                else:
-                    targets.append((int(k), b))
-            if isinstance(v, bool):
-                v = int(v)
-            if isinstance(v, int):
-                for k, b in targets:
-                    if k == v:
-                        yield from self.run_block(f, b, env, ctx, depth + 1)
+        steps = 0
+        while True:
+            steps += 1
+            if steps > self.max_blocks:
+                raise Unsupported("path longer than %d blocks (an unbounded loop?) in %s" % (self.max_blocks, f.name))
+            stmts = f.blocks[bb]
+            for st in stmts[:-1]:
+                self.statement(f, st, env, ctx)
+            term = stmts[-1]
+            # --- terminators
+            if term == "return;":
+                self.paths += 1
+                if self.paths > self.max_paths:
+                    raise PathLimit("more than %d paths" % self.max_paths)
+                yield ctx, env.get("_0"), env.store
+                return
+            if term == "unreachable;":
+                return
+            m = re.match(r"^goto -> (bb\d+);$", term)
+            if m:
+                bb = m.group(1)
+                continue
+            m = re.match(r"^switchInt\((.*)\) -> \[(.*)\];$", term)
+            if m:
+                v = self.operand(m.group(1), env)
+                targets = []
+                other = None
+                for t in split_top(m.group(2)):
+                    k, b = t.split(": ")
+                    if k == "otherwise":
+                        other = b
+                    else:
+                        targets.append((int(k), b))
+                if isinstance(v, bool):
+                    v = int(v)
+                if isinstance(v, int):
+                    nxt = other
+                    for k, b in targets:
+                        if k == v:
+                            nxt = b
+                            break
+                    if nxt is None:
                         return
-                if other:
-                    yield from self.run_block(f, other, env, ctx, depth + 1)
-                return
-            if isinstance(v, Opq):
-                # unconstrained: every listed target, and `otherwise` unless it is the unreachable block
-                for k, b in targets:
-                    c2 = ctx.fork(); c2.trace.append("%s:%s opaque=%d" % (f.name, bb, k))
-                    yield from self.run_block(f, b, dict(env), c2, depth + 1)
-                if other and f.blocks[other] != ["unreachable;"]:
-                    c2 = ctx.fork(); c2.trace.append("%s:%s opaque=otherwise" % (f.name, bb))
-                    yield from self.run_block(f, other, dict(env), c2, depth + 1)
-                return
-            if isinstance(v, BT):
-                v = bool_to_int(v)
-            rest = []
-            for k, b in targets:
-                cond = cmp_("Eq", v, k)
-                rest.append(bnot(cond))
-                if cond is False:
+                    bb = nxt
                     continue
-                if self.feasible(ctx, [bsx(cond)]):
-                    c2 = ctx.fork(); c2.assume(cond); c2.trace.append("%s:%s=%d" % (f.name, bb, k))
-                    yield from self.run_block(f, b, dict(env), c2, depth + 1)
-            if other:
-                conds = [bsx(r) for r in rest if r is not True]
-                if not any(r is False for r in rest) and self.feasible(ctx, conds):
-                    c2 = ctx.fork()
-                    for r in rest:
-                        c2.assume(r)
-                    c2.trace.append("%s:%s=otherwise" % (f.name, bb))
-                    yield from self.run_block(f, other, dict(env), c2, depth + 1)
-            return
-        m = re.match(r"^assert\((!?)(.*?), \"(.*?)\"(?:, .*)?\) -> \[success: (bb\d+), unwind.*\];$", term)
-        if m:
-            v = self.operand(m.group(2), env)
-            if isinstance(v, Opq):
-                yield from self.run_block(f, m.group(4), env, ctx, depth + 1)
+                if isinstance(v, Opq):
+                    # unconstrained: every listed target, and `otherwise` unless it is the unreachable block
+                    for k, b in targets:
+                        c2 = ctx.fork(); c2.trace.append("%s:%s opaque=%d" % (f.name, bb, k))
+                        yield from self.run_block(f, b, env.fork(), c2, depth + 1)
+                    if other and f.blocks[other] != ["unreachable;"]:
+                        c2 = ctx.fork(); c2.trace.append("%s:%s opaque=otherwise" % (f.name, bb))
+                        yield from self.run_block(f, other, env.fork(), c2, depth + 1)
+                    return
+                if isinstance(v, BT):
+                    v = bool_to_int(v)
+                rest = []
+                for k, b in targets:
+                    cond = cmp_("Eq", v, k)
+                    rest.append(bnot(cond))
+                    if cond is False:
+                        continue
+                    if self.feasible(ctx, [bsx(cond)]):
+                        c2 = ctx.fork(); c2.assume(cond); c2.trace.append("%s:%s=%d" % (f.name, bb, k))
+                        yield from self.run_block(f, b, env.fork(), c2, depth + 1)
+                if other:
+                    conds = [bsx(r) for r in rest if r is not True]
+                    if not any(r is False for r in rest) and self.feasible(ctx, conds):
+                        c2 = ctx.fork()
+                        for r in rest:
+                            c2.assume(r)
+                        c2.trace.append("%s:%s=otherwise" % (f.name, bb))
+                        yield from self.run_block(f, other, env.fork(), c2, depth + 1)
                 return
-            if m.group(1) == "!":
-                v = bnot(v)
-            if v is False:
-                self.obligations.append(Obligation(f.name, bb, m.group(3), ctx.fork(), False))
+            m = re.match(r"^assert\((!?)(.*?), \"(.*?)\"(?:, .*)?\) -> \[success: (bb\d+), unwind.*\];$", term)
+            if m:
+                v = self.operand(m.group(2), env)
+                if not isinstance(v, Opq):
+                    if m.group(1) == "!":
+                        v = bnot(v)
+                    if v is False:
+                        self.obligations.append(Obligation(f.name, bb, m.group(3), ctx.fork(), False))
+                        return
+                    if v is not True:
+                        self.obligations.append(Obligation(f.name, bb, m.group(3), ctx.fork(), v))
+                        ctx.assume(v)
+                bb = m.group(4)
+                continue
+            m = re.match(r"^(.+?) = (.+?)\((.*)\) -> \[return: (bb\d+), unwind.*\];$", term)
+            if m:
+                dst = parse_place(m.group(1))
+                args = [self.operand(a, env) for a in split_top(m.group(3))]
+                dst_ty = f.locals.get(dst[0])
+                for c2, val, st2 in self.call(m.group(2), args, ctx, env, f, dst_ty):
+                    e2 = Env(st2, env.fid)
+                    self.write_place(e2, dst, val)
+                    yield from self.run_block(f, m.group(4), e2, c2, depth + 1)
                 return
-            if v is not True:
-                self.obligations.append(Obligation(f.name, bb, m.group(3), ctx.fork(), v))
-                ctx.assume(v)
-            yield from self.run_block(f, m.group(4), env, ctx, depth + 1)
-            return
-        m = re.match(r"^(.+?) = (.+?)\((.*)\) -> \[return: (bb\d+), unwind.*\];$", term)
-        if m:
-            dst = parse_place(m.group(1))
-            args = [self.operand(a, env) for a in split_top(m.group(3))]
-            dst_ty = f.locals.get(dst[0])
-            for c2, val in self.call(m.group(2), args, ctx, env, f, dst_ty):
-                e2 = dict(env) if c2 is not ctx else env
-                self.write_place(e2, dst, val)
-                yield from self.run_block(f, m.group(4), e2, c2, depth + 1)
-            return
-        m = re.match(r"^(.+?) = (core|std)::panicking::(\w+)\((.*)\) -> unwind.*;$", term)
-        if m:
-            self.obligations.append(Obligation(f.name, bb, "panic: " + m.group(4)[:80], ctx.fork(), False))
-            return
-        m = re.match(r"^drop\(.*\) -> \[return: (bb\d+), unwind.*\];$", term)
-        if m:
-            yield from self.run_block(f, m.group(1), env, ctx, depth + 1)
-            return
-        raise Unsupported("terminator: " + term)
+            m = re.match(r"^(.+?) = (core|std)::panicking::(\w+)\((.*)\) -> unwind.*;$", term)
+            if m:
+                self.obligations.append(Obligation(f.name, bb, "panic: " + m.group(4)[:80], ctx.fork(), False))
+                return
+            m = re.match(r"^drop\(.*\) -> \[return: (bb\d+), unwind.*\];$", term)
+            if m:
+                bb = m.group(1)
+                continue
+            raise Unsupported("terminator: " + term)
 
     def statement(self, f, st, env, ctx):
         if st.startswith(("StorageLive", "StorageDead", "nop", "FakeRead", "PlaceMention", "Retag", "AscribeUserType", "Coverage", "ConstEvalCounter")):
